@@ -1,0 +1,133 @@
+//go:build verif
+
+/*
+ * Verification hooks (build tag `verif` only): exported wrappers over unexported
+ * internals for white-box correspondence checks. Nothing here is compiled into
+ * a normal build and no existing code is modified.
+ */
+
+package reflect
+
+import (
+	"reflect"
+	"unsafe"
+)
+
+// VerifSpan wraps the decoder's bump allocator.
+type VerifSpan struct{ s span }
+
+func NewVerifSpan() *VerifSpan {
+	v := &VerifSpan{}
+	v.s.init()
+	return v
+}
+
+// Malloc returns the address handed out and the base address / size of the block it lies in.
+func (v *VerifSpan) Malloc(n, align int) (ptr, base uintptr, blockSize int) {
+	p := v.s.Malloc(n, align)
+	return uintptr(p), uintptr(v.s.b), v.s.n
+}
+
+// Base returns the base address of the current block.
+func (v *VerifSpan) Base() uintptr { return uintptr(v.s.b) }
+
+// VerifDecoderRoute reports whether tDecoder.Malloc would bypass the span.
+func VerifDecoderRoute(n int, typed bool) bool {
+	var abi uintptr
+	if typed {
+		abi = 1
+	}
+	return n > defaultDecoderMemSize/8 || abi != 0
+}
+
+// VerifBitset wraps the presence set.
+type VerifBitset struct{ b bitset }
+
+func (v *VerifBitset) Set(i uint16)       { v.b.set(i) }
+func (v *VerifBitset) Unset(i uint16)     { v.b.unset(i) }
+func (v *VerifBitset) Test(i uint16) bool { return v.b.test(i) }
+
+// VerifDescMap wraps mapStructDesc with opaque descriptor identities.
+type VerifDescMap struct {
+	m   *mapStructDesc
+	sds []*structDesc
+}
+
+func NewVerifDescMap(ndesc int) *VerifDescMap {
+	v := &VerifDescMap{m: newMapStructDesc()}
+	for i := 0; i < ndesc; i++ {
+		v.sds = append(v.sds, &structDesc{})
+	}
+	return v
+}
+
+// Get returns the index of the descriptor stored for key, or -1.
+func (v *VerifDescMap) Get(key uintptr) int {
+	sd := v.m.Get(key)
+	for i, x := range v.sds {
+		if x == sd {
+			return i
+		}
+	}
+	return -1
+}
+
+// Set stores descriptor #d under key and reports whether the slice previously
+// published in the slot was left unmodified (copy-on-write).
+func (v *VerifDescMap) Set(key uintptr, d int) (oldUnchanged bool) {
+	bk := key & mapStructDescBuckets
+	var before []mapStructDescItem
+	var oldp *[]mapStructDescItem
+	if p := v.m.slots[bk].Load(); p != nil {
+		oldp = p
+		before = append(before, (*p)...)
+	}
+	v.m.Set(key, v.sds[d])
+	if oldp == nil {
+		return true
+	}
+	if len(*oldp) != len(before) {
+		return false
+	}
+	for i := range before {
+		if (*oldp)[i] != before[i] {
+			return false
+		}
+	}
+	return true
+}
+
+// VerifCacheSizes reports the sizes of the unsynchronised build caches.
+func VerifCacheSizes() (prefetch, ttypeNodes int) {
+	sdsmu.Lock()
+	defer sdsmu.Unlock()
+	return len(prefetchStructDescCache), len(ttypes)
+}
+
+// VerifDescribe dumps, for a struct type that has been used already, the per-field
+// flags computed by fromDefsField (search heuristic for the checker only).
+func VerifDescribe(rt reflect.Type) (out []VerifFieldInfo, ok bool) {
+	sd := sds.Get(rtTypePtr(rt))
+	if sd == nil {
+		return nil, false
+	}
+	for _, f := range sd.fields {
+		out = append(out, VerifFieldInfo{
+			ID: f.ID, WT: uint8(f.Type.WT), T: uint8(f.Type.T), FixedSize: f.Type.FixedSize,
+			IsPointer: f.Type.IsPointer, NoCopy: f.NoCopy, SkipNil: f.CanSkipEncodeIfNil,
+			SkipDefault: f.CanSkipIfDefault, Size: f.Type.Size, Align: f.Type.Align,
+			Typed: f.Type.MallocAbiType != 0,
+		})
+	}
+	return out, true
+}
+
+type VerifFieldInfo struct {
+	ID                          uint16
+	WT, T                       uint8
+	FixedSize, Size, Align      int
+	IsPointer, NoCopy           bool
+	SkipNil, SkipDefault, Typed bool
+}
+
+var _ = unsafe.Pointer(nil)
